@@ -268,6 +268,12 @@ func (in *Interp) applyOp(cur, v *Term, tok token.Token, t types.Type) *Term {
 		r = Mul(cur, v)
 	case token.QUO_ASSIGN:
 		r = Div(cur, v)
+	case token.SHL_ASSIGN:
+		if v.IsConst() && v.C >= 0 && v.C < 62 {
+			r = cur.Scale(1 << uint(v.C))
+		} else {
+			return Opq("(" + cur.String() + ")<<(" + v.String() + ")")
+		}
 	default:
 		return Opq("(" + cur.String() + ")" + strings.TrimSuffix(tok.String(), "=") + "(" + v.String() + ")")
 	}
@@ -1197,6 +1203,7 @@ func (in *Interp) execRange(st *State, x *ast.RangeStmt) (*State, bool) {
 			continue
 		}
 		if len(ab.Recs) > len(rb.Recs) {
+			idxKey := Opq("idx:" + listPath).SingleAtom().Key()
 			for _, r := range ab.Recs[len(rb.Recs):] {
 				nr := *r
 				for o, s := range syms {
@@ -1204,12 +1211,32 @@ func (in *Interp) execRange(st *State, x *ast.RangeStmt) (*State, bool) {
 						nr.Off = substSym(nr.Off, s, bv.T)
 					}
 				}
-				if nr.Loop == lc && lc.Step != nil {
-					nr.Loop = &LoopCtx{List: listPath, Step: lc.Step, ID: lc.ID}
+				step := lc.Step
+				// an offset that is linear in the loop index (data[n+2*i:]) is a cursor that starts at the
+				// index-free part and advances by the coefficient
+				if k, ok := nr.Off.K[idxKey]; ok && k > 0 && nr.Loop == lc {
+					nr.Off = nr.Off.AddScaled(FromAtom(nr.Off.Atoms[idxKey]), -k)
+					if step == nil {
+						step = Const(k)
+					}
+					// canonical form of a list record's offset (as for cursor loops): start plus the elements of the list
+					nr.Off = nr.Off.Add(in.sumOver(listPath, listLen, elems, Const(k), elemPath))
+				}
+				if nr.Loop == lc && step != nil {
+					nr.Loop = &LoopCtx{List: listPath, Step: step, ID: lc.ID}
 				}
 				rb.Recs = append(rb.Recs, &nr)
 			}
 			rb.Cursor = ab.Cursor
+			// the extent reached by index-addressed writes: the last index is len(list)-1
+			if ab.Extent != nil {
+				if k, ok := ab.Extent.K[idxKey]; ok && k > 0 && listLen != nil {
+					e := ab.Extent.AddScaled(FromAtom(ab.Extent.Atoms[idxKey]), -k).Add(listLen.AddC(-1).Scale(k))
+					if rb.Extent == nil || !e.Sub(rb.Extent).NonPos() {
+						rb.Extent = e
+					}
+				}
+			}
 		}
 	}
 	// other locals assigned in the body (flags, objects) are unknown after the loop
